@@ -59,12 +59,16 @@ pub fn run(seed: u64, tier: &str, out: &mut Out) {
         vh::set_now_ns(T0);
         let len: Option<u64> = match rng.below(4) { 0 => None, 1 => Some(u64::MAX), 2 => Some(1_000_000), _ => Some(1000) };
         let pb = ProgressBar::hidden();
+        // a fifth of the bars are given a head start on the clock (`with_elapsed`): elapsed and duration include it, the rate does not
+        let head_start: u64 = if rng.chance(1, 5) { *rng.pick(&[1u64, 60, 900]) } else { 0 };
+        let pb = if head_start > 0 { pb.with_elapsed(std::time::Duration::from_secs(head_start)) } else { pb };
         if let Some(l) = len { pb.set_length(l); }
         // kind 0: steady (exact constant rate through `update`), kind 1: `update` only, kind 2: everything
         let kind = case_no % 3;
         let rate: u64 = *rng.pick(&[1u64, 3, 1000, 1_000_000, 1_000_000_000]);
         let (mut now, mut pos) = (T0, 0u64);
         let mut case = format!("EST {T0} {}", len.map_or("none".to_string(), |l| l.to_string()));
+        if head_start > 0 { case += &format!(" ; withelapsed {}", head_start * 1_000_000_000); }
         if len.is_some() { case += " ; len "; case += &len.unwrap().to_string(); }
         let mut obs: Vec<String> = Vec::new();
         let mut verdict = "ok".to_string();
